@@ -40,8 +40,8 @@ CHECKS = {
  "C11": ("kernel output vs element-wise reference, every ISA, with canaries",
          "Every private SIMD/portable kernel (exposed by a hook) and the public dispatchers are called for every length 0..320, 64x8 alignment pairs and all scalars; results compared byte-for-byte with the element-wise reference, source and canaries must be untouched.",
          "3.C11"),
- "C12": ("Miri + AddressSanitizer + guard pages + valgrind on kernel, slab, matrix and codec workloads",
-         "Memory monitors on executed paths: guard-page placement of kernel operands (native, all ISAs), Miri on four target-feature builds (kernels, slab pairs incl. aliasing model, octet tables, small codec runs), ASan build of the kernel sweep and codec generator, valgrind memcheck (thorough).",
+ "C12": ("Miri + AddressSanitizer + guard pages + std unsafe-precondition checks + valgrind on kernel, slab, matrix, codec and hostile workloads",
+         "Memory monitors on executed paths: guard-page placement of kernel operands (native, all ISAs), Miri on four target-feature builds (kernels, slab pairs incl. aliasing model, octet tables, small codec runs), ASan build of the kernel sweep, codec generator and hostile inputs (malformed payloads, unequal operands), the same workloads in a debug-assertion build under the standard library's unsafe-precondition checks, crash attribution (SIGSEGV inside a library call = violation), valgrind memcheck (thorough).",
          "3.C12"),
  "C13": ("serialised bytes vs RFC layouts; PayloadId exhaustive in thorough",
          "Wire formats compared with byte layouts written from RFC 3.2/3.3; PayloadId over all 2^32 buffers (thorough) or all 2^24 ESIs x 3 SBNs (quick); packets for all payload lengths 0..2048; OTI over the cross product of per-field edge values and random buffers.",
